@@ -9,6 +9,7 @@ import itertools
 
 from ..lib import coqlit as L
 from ..lib import e2
+from ..lib import e5
 
 IMPORTS = ["Base", "Match", "TriggerTable"]
 STAGES = [None, "line_start", "line_end", "line_capture", "method_start", "method_end", "method_capture", "bogus_stage"]
@@ -240,7 +241,7 @@ def run(ctx):
         ctx.fail("a refused registration left an entry in the custom list: %r" % (svc._custom,), dict(stage="no_such_stage"),
                  tag="register-residue")
     ctx.case(dict(register="unknown stage"), bucket="register")
-    handler_cases(ctx, 150 if ctx.thorough else 30)
+    handler_cases(ctx, 200 if ctx.thorough else 60)
 
 
 def handler_cases(ctx, n):
@@ -264,15 +265,37 @@ def handler_cases(ctx, n):
                 resp.append(TracePointConfig(ID="svc%d" % i, path="m.py", line_number=7, args=args))
                 counts["svc%d" % i] = fc
             svc = TracepointConfigService()
+            # half of the cases install the way the agent does: the response goes to the service, registrations follow (some before
+            # the response), every step is delivered to the handler by the service's own listener path, one task at a time
+            through_service = rng.random() < 0.5
+            tasks = e5.CtlTasks()
+            if through_service:
+                from deep.processor.trigger_handler import TracepointHandlerUpdateListener
+                svc.set_task_handler(tasks)
+                svc.add_listener(TracepointHandlerUpdateListener(world.handler))
             handles = []
-            for i in range(rng.choice([0, 1, 2])):
+            n_custom = rng.choice([0, 1, 2])
+            before = rng.randrange(n_custom + 1)
+            for i in range(n_custom):
+                if through_service and i == before:
+                    svc.update_new_config(1, "h1", convert_response(resp))
+                    tasks.flush()
                 fc = rng.choice(["-1", "2", None])
                 args = {"log_msg": "m", "snapshot": "no_collect", "fire_period": "0"}
                 if fc is not None:
                     args["fire_count"] = fc
                 handles.append(svc.add_custom("m.py", 7, args, [], []))
                 counts[handles[-1]] = fc
-            world.install(convert_response(resp) + list(svc._custom))
+                tasks.flush()
+            if through_service:
+                if before == n_custom:
+                    svc.update_new_config(1, "h1", convert_response(resp))
+                    tasks.flush()
+                if rng.random() < 0.5:
+                    svc.update_no_change(2)
+                    tasks.flush()
+            else:
+                world.install(convert_response(resp) + list(svc._custom))
             hits = rng.choice([1, 3, 5])
             for h in range(hits):
                 clock.now = e2.BASE_NS + (h + 1) * 5_000_000
@@ -282,7 +305,8 @@ def handler_cases(ctx, n):
                 if w == "log":
                     got[tp] = got.get(tp, 0) + 1
             want = {tp: (hits if fc == "-1" else min(hits, int(fc) if fc is not None else 1)) for tp, fc in counts.items()}
-            j = dict(on_one_line={("service " + k if k.startswith("svc") else "registered"): v for k, v in counts.items()}, hits=hits)
+            j = dict(on_one_line={("service " + k if k.startswith("svc") else "registered"): v for k, v in counts.items()}, hits=hits,
+                     installed="through the service and its listener" if through_service else "directly")
             ctx.case(j, nontrivial=len(counts) > 1, bucket="handler")
             if got != want:
                 ctx.fail("%d hits of a line carrying %d service tracepoint(s) and %d registered one(s) with fire_count %r: acted %r, "
